@@ -16,7 +16,7 @@ verus! {
         // after caller validation and state load the tick returns Ok for EVERY vector of send outcomes:
         // the only Err exits are the two statements before the loop
         (old(rt).validated@.is_none() && old(rt).msg.caller == SYSTEM_ACTOR_ADDR) ==> (r.is_ok() || final(rt).sends@.len() == 0),
-        r.is_ok() ==> old(rt).msg.caller == SYSTEM_ACTOR_ADDR,
+        /*C11*/ r.is_ok() ==> old(rt).msg.caller == SYSTEM_ACTOR_ADDR && final(rt).validated@.is_some(),
         // exactly one message per entry, in order, value 0
         r.is_ok() ==> ({
             let entries = rt_state::<State>(old(rt).state_id@).entries@;
@@ -32,6 +32,7 @@ verus! {
             invariant
                 !rt.in_tx@,
                 rt.msg == old(rt).msg,
+                rt.validated@.is_some(),
                 it.seq() == rt_state::<State>(old(rt).state_id@).entries@,
                 rt.sends@.len() == it.index@,
                 forall|i: int| 0 <= i < it.index@ ==> {
